@@ -297,6 +297,10 @@ func onRuleUpdate(rawResRulesMap map[string][]*Rule) (err error) {
 	updateMux.Lock()
 	breakerRules = validResRulesMap
 	breakers = newBreakers
+	// (what the load changes in the rule-in-force table takes effect in the same critical section: committed
+	// after it - behind the unlock and the log line - a getter in between reported the new list with the IDs
+	// of the old one, a list nobody ever loaded)
+	endRuleInForceEdits(true)
 	updateMux.Unlock()
 	published = true
 	currentRules = rawResRulesMap
@@ -352,6 +356,7 @@ func onResourceRuleUpdate(res string, rawResRules []*Rule) (err error) {
 		breakerRules[res] = validResRules
 		breakers[res] = newCbsOfRes
 	}
+	endRuleInForceEdits(true)
 	updateMux.Unlock()
 	published = true
 	// keep a copy of the list: the caller may go on using its slice (replace an element and load it
